@@ -241,6 +241,82 @@ example : dsDigestMatches (fun s => (s, true)) (fun _ d => d.take 20) 8 6 (some 
 example : dsDigestMatches (fun s => (s, true)) (fun _ _ => List.replicate 20 7) 8 6 (some [0]) 257 3 8 [9, 9] 1
     (List.replicate 20 7) = true := by decide
 
+/-! ## VerifyDS: bogus versus unsupported-only -/
+
+/-- **A DS set is accepted exactly when some supported DS authenticates an
+offered key**: supported digest type and algorithm, a digest field that
+hex-decodes to at least one octet, and a usable candidate key (tag,
+algorithm, class, owner, protocol 3, zone flag, not oversized) that
+`dsDigestMatches` under it. -/
+theorem verifyds_ok_iff (sup : DSRec → Bool) (dmatch : DKey → Nat → Bytes → Bool) (limit : Nat) (keys : List DKey)
+    (dss : List DSRec) :
+    (verifyDS sup dmatch limit keys dss).2 = true ↔ ∃ d ∈ dss, dsAuthenticates sup dmatch limit keys d = true := by
+  unfold verifyDS
+  have h := (foldl_verifyDS sup dmatch limit keys dss {} rfl).1
+  simp only
+  by_cases hm : (dss.foldl (verifyDSStep sup dmatch limit keys) {}).matched = true
+  · simp only [hm, if_true, true_iff]; exact h.mp hm
+  · simp only [hm, Bool.false_eq_true, if_false]
+    have : ¬ ∃ d ∈ dss, dsAuthenticates sup dmatch limit keys d = true := fun hx => hm (h.mpr hx)
+    split <;> (try split) <;> simp [this]
+
+/-- **"Unsupported only" means exactly that.** `VerifyDS` reports
+`unsupportedOnly = true` (which the resolver turns into an insecure,
+unvalidated zone) iff the set is non-empty and holds *no* DS of a supported
+digest type and algorithm. A supported DS that authenticates nothing — no
+such key, an empty / odd-length / non-hex digest, a mismatching digest —
+makes the set bogus, never insecure. -/
+theorem verifyds_unsupported_only_iff (sup : DSRec → Bool) (dmatch : DKey → Nat → Bytes → Bool) (limit : Nat)
+    (keys : List DKey) (dss : List DSRec) :
+    (verifyDS sup dmatch limit keys dss).1 = true ↔ dss ≠ [] ∧ ∀ d ∈ dss, sup d = false := by
+  unfold verifyDS
+  have h := foldl_verifyDS sup dmatch limit keys dss {} rfl
+  simp only
+  by_cases hm : (dss.foldl (verifyDSStep sup dmatch limit keys) {}).matched = true
+  · simp only [hm, if_true, Bool.false_eq_true, false_iff, not_and]
+    intro _ hall
+    obtain ⟨d, hd, ha⟩ := h.1.mp hm
+    unfold dsAuthenticates at ha
+    rw [hall d hd] at ha
+    simp at ha
+  · have hm' : (dss.foldl (verifyDSStep sup dmatch limit keys) {}).matched = false := by simpa using hm
+    have hcount := h.2 hm'
+    simp only [hm, Bool.false_eq_true, if_false]
+    by_cases he : dss = []
+    · simp [he]
+    · have he' : dss.isEmpty = false := by simpa using he
+      simp only [he', Bool.false_eq_true, if_false]
+      rw [hcount]
+      have hz : (0 + (dss.filter sup).length = 0) ↔ ∀ d ∈ dss, sup d = false := by
+        simp only [Nat.zero_add, List.length_eq_zero_iff, List.filter_eq_nil_iff]
+        constructor
+        · intro hx d hd; simpa using hx d hd
+        · intro hx d hd; simp [hx d hd]
+      by_cases hs : (0 + (dss.filter sup).length = 0)
+      · have hs0 : (({} : DSState).supported + (dss.filter sup).length = 0) := hs
+        simp only [hs0, if_true, true_iff]; exact ⟨he, hz.mp hs⟩
+      · have hs0 : ¬ (({} : DSState).supported + (dss.filter sup).length = 0) := hs
+        simp only [hs0, if_false, Bool.false_eq_true, false_iff, not_and]
+        intro _ hall; exact hs (hz.mpr hall)
+
+/-- in particular one supported DS in the set is enough to rule out "insecure". -/
+theorem verifyds_supported_never_insecure (sup : DSRec → Bool) (dmatch : DKey → Nat → Bytes → Bool) (limit : Nat)
+    (keys : List DKey) (dss : List DSRec) (d : DSRec) (hd : d ∈ dss) (hs : sup d = true) :
+    (verifyDS sup dmatch limit keys dss).1 = false := by
+  cases h : (verifyDS sup dmatch limit keys dss).1 with
+  | false => rfl
+  | true =>
+    have := ((verifyds_unsupported_only_iff sup dmatch limit keys dss).mp h).2 d hd
+    rw [hs] at this; cases this
+
+-- a supported DS whose digest field is empty next to an unsupported one: bogus, not insecure
+example : verifyDS (fun d => d.dt == 2) (fun _ _ _ => true) 100 [⟨257, 3, 13, 1, [46], [65], 7⟩]
+    [⟨[46], 1, 7, 13, 3, [97, 98]⟩, ⟨[46], 1, 7, 13, 2, []⟩] = (false, false) := by decide
+example : verifyDS (fun d => d.dt == 2) (fun _ _ _ => true) 100 [⟨257, 3, 13, 1, [46], [65], 7⟩]
+    [⟨[46], 1, 7, 13, 3, [97, 98]⟩] = (true, false) := by decide
+example : verifyDS (fun d => d.dt == 2) (fun _ _ _ => true) 100 [⟨257, 3, 13, 1, [46], [65], 7⟩]
+    [⟨[46], 1, 7, 13, 2, [97, 98]⟩] = (false, true) := by decide
+
 /-! ## RSA -/
 
 /-- **The raw verifier accepts exactly the mathematically valid signatures**:
